@@ -657,6 +657,15 @@ func assignedVars(info *types.Info, n ast.Node) []types.Object {
 					add(y.Value)
 				}
 			}
+		case *ast.CallExpr:
+			// methods of a strings.Builder local update the modelled string
+			if se, ok := y.Fun.(*ast.SelectorExpr); ok {
+				if id, ok := se.X.(*ast.Ident); ok {
+					if o := info.ObjectOf(id); o != nil && isBuilderType(o.Type()) {
+						add(id)
+					}
+				}
+			}
 		case *ast.FuncLit:
 			// closures may assign captured variables when called; handled where they are called
 			return true
